@@ -266,3 +266,32 @@ def main(argv=None):
     print("FRAMEWORK-ERROR property=%s: fewer than two distinct outcomes observed (vacuous run)" % pid)
     return 2
   return rc
+
+
+def isolated(fn, arg):
+  """Runs fn(arg) in a forked child so that any in-process mutation of shared
+  state (e.g. pytype's process-wide builtins cache) dies with the child."""
+  import pickle
+  r, w = os.pipe()
+  pid = os.fork()
+  if pid == 0:
+    code = 0
+    try:
+      os.close(r)
+      try:
+        out = (fn(arg), None)
+      except BaseException:  # pylint: disable=broad-except
+        out = (None, traceback.format_exc())
+      with os.fdopen(w, "wb") as f:
+        pickle.dump(out, f)
+    except BaseException:  # pylint: disable=broad-except
+      code = 1
+    os._exit(code)
+  os.close(w)
+  with os.fdopen(r, "rb") as f:
+    data = f.read()
+  os.waitpid(pid, 0)
+  out, err = pickle.loads(data)
+  if err:
+    raise RuntimeError("isolated call failed:\n" + err)
+  return out
